@@ -43,7 +43,7 @@ IO_ENTRIES = ["io", "io_header"]
 def _cases(entries, with_header):
     @st.composite
     def strat(draw):
-        t = draw(T.tables(kind="binary", allow_mixed_order=True))
+        t = draw(T.tables(kind="binary", allow_mixed_order=True, sizes=True))
         case = {"table": t, "entry": draw(st.sampled_from(entries)),
                 "layout": draw(st.sampled_from(["contig", "contig", "contig", "contig", "strided", "offset"]))}
         if with_header:
